@@ -171,6 +171,7 @@ func (self *Interpreter) functionLiteral(node ast.AnalyzedFunctionLiteralExpress
 	return value.NewValueClosure(
 		node.Body,
 		self.currentModule.scopes,
+		self.currentModuleName,
 	), nil
 }
 
